@@ -487,11 +487,16 @@ pub struct DenseCase {
 }
 
 fn strat_dense(_t: Tier) -> BoxedStrategy<DenseCase> {
-    (super::c03::shape(12), any::<bool>()).prop_flat_map(|((r, c), f32)| super::c03::values(r, c).prop_map(move |a| DenseCase { f32, a })).boxed()
+    // "any shape": one case in sixteen is an empty matrix (0 x 0, 0 x k or k x 0)
+    prop_oneof![
+        15 => (super::c03::shape(12), any::<bool>()).prop_flat_map(|((r, c), f32)| super::c03::values(r, c).prop_map(move |a| DenseCase { f32, a })),
+        1 => (0usize..=4, 0usize..=4, any::<bool>(), any::<bool>()).prop_map(|(r, c, zero_rows, f32)| { let (r, c) = if zero_rows { (0, c) } else { (r, 0) }; DenseCase { f32, a: Mat { r, c, d: vec![] } } }),
+    ]
+    .boxed()
 }
 
 fn dense_run<T: smartcore::math::num::RealNumber + Serialize + DeserializeOwned>(a: &Mat) -> Result<(), Fail> {
-    let m = <DenseB as Build<T>>::build(a);
+    let m = if a.r * a.c == 0 { DenseMatrix::<T>::zeros(a.r, a.c) } else { <DenseB as Build<T>>::build(a) };
     roundtrip("dense_matrix", &m, &|m: &DenseMatrix<T>| Ok(to_mat(m).d.iter().cloned().chain([m.shape().0 as f64, m.shape().1 as f64]).collect()), Some(&|x, y| x == y))?;
     // the map form with permuted keys restores the same matrix; nrows / ncols are not swapped
     let v = serde_json::to_value(&m).map_err(|e| Fail { sig: "dense_matrix/json".into(), msg: e.to_string() })?;
